@@ -338,6 +338,12 @@ class StmtMixin:
                     if m_:
                         try: lt = self.ty('std::pair<%s, %s>' % (m_.group(1), m_.group(2)))
                         except Unsupported: pass
+            # one element type per abstract sequence: a loop that names it through an unresolvable alias (`const auto& pos`
+            # typed as a map's node iterator) uses the type an earlier loop over the same sequence resolved
+            known = getattr(self, 'iter_elem_ty', None)
+            if known is None: known = self.iter_elem_ty = {}
+            if lt.kind == 'opaque' and rt.c in known: lt = known[rt.c]; self.rules['range-for:element-type-from-earlier-loop'] += 1
+            elif lt.kind != 'opaque': known.setdefault(rt.c, lt)
             for fn, proto in (('%s_iter_size' % rt.c, 'size_t %s_iter_size(const %s* this_);' % (rt.c, rt.c)),
                               ('%s_iter_get' % rt.c, '%s %s_iter_get(const %s* this_, size_t index);' % (lt.c, rt.c, rt.c))):
                 self.autostubs.setdefault(fn, proto); self.fninfo.setdefault(fn, {'qname': fn, 'stub': True})
